@@ -6,7 +6,6 @@ package main
 // and paired by position; the TLA+ trace specification judges them.
 
 import (
-	"bytes"
 	"context"
 	"encoding/hex"
 	"encoding/json"
@@ -756,12 +755,10 @@ func runArtela(p *gen.Program, o runOpts) (out runOut) {
 		}
 		raw, _ := json.Marshal(sl.StructLogs())
 		out.outs = append(out.outs, tracerOut("structLogger", raw, nil))
-		// the two public renderings of the struct logs, which (unlike the JSON of the log entries) include the storage snapshots
+		// the public result of the struct logger, which (unlike the JSON of the log entries) includes the storage snapshots; the text
+		// rendering (WriteTrace) prints the storage map in Go's map order and is therefore not compared
 		res, rerr := sl.GetResult()
 		out.outs = append(out.outs, tracerOut("structLogger.result", res, rerr))
-		var txt bytes.Buffer
-		alogger.WriteTrace(&txt, sl.StructLogs())
-		out.outs = append(out.outs, tracerOut("structLogger.text", txt.Bytes(), nil))
 		out.outs = append(out.outs, tracerOut("accessList", canonAccessList(al.AccessList()), nil))
 	}
 	return
@@ -872,12 +869,10 @@ func runRef(p *gen.Program, o runOpts) (out runOut) {
 		}
 		raw, _ := json.Marshal(sl.StructLogs())
 		out.outs = append(out.outs, tracerOut("structLogger", raw, nil))
-		// the two public renderings of the struct logs, which (unlike the JSON of the log entries) include the storage snapshots
+		// the public result of the struct logger, which (unlike the JSON of the log entries) includes the storage snapshots; the text
+		// rendering (WriteTrace) prints the storage map in Go's map order and is therefore not compared
 		res, rerr := sl.GetResult()
 		out.outs = append(out.outs, tracerOut("structLogger.result", res, rerr))
-		var txt bytes.Buffer
-		rlogger.WriteTrace(&txt, sl.StructLogs())
-		out.outs = append(out.outs, tracerOut("structLogger.text", txt.Bytes(), nil))
 		out.outs = append(out.outs, tracerOut("accessList", canonAccessList(al.AccessList()), nil))
 	}
 	return
